@@ -58,7 +58,7 @@ func c11Run(c *fw.Ctx) {
 	const V = 60 * time.Second
 	envs := &envCache{}
 	defer envs.close()
-	dirAnswers := []string{"in-listed-group", "in-no-group", "directory-error"}
+	dirAnswers := []string{"in-listed-group", "in-no-group", "directory-error", "in-group-named-with-listed-name-as-prefix", "in-group-whose-name-is-a-prefix-of-listed"}
 
 	drive(c, "stages", -1, func(x *explore.Exec, owned bool) {
 		va, vd, vg := x.Choose("addr-rule", 4), x.Choose("dom-rule", 4), x.Choose("grp-rule", 4)
@@ -80,6 +80,10 @@ func c11Run(c *fw.Ctx) {
 				return ans(200, `{"email":"x","groups":["eng"]}`)
 			case "in-no-group":
 				return ans(200, `{"email":"x","groups":[]}`)
+			case "in-group-named-with-listed-name-as-prefix":
+				return ans(200, `{"email":"x","groups":["eng-contractors","engineering"]}`)
+			case "in-group-whose-name-is-a-prefix-of-listed":
+				return ans(200, `{"email":"x","groups":["en","e"]}`)
 			}
 			return ans(500, "directory unavailable")
 		}
@@ -240,7 +244,7 @@ func init() {
 	fw.Register(&fw.Check{
 		ID:    "C11",
 		Level: "exploration",
-		Rule: "full product on a proxy built like cmd/sso-proxy (validators exactly as proxy.New builds them): rule sets = every combination of {absent, listed value, lone *, * with another value} for addresses, domains and groups (63 policies) x 14 emails (exact, case-varied, prefix/suffix look-alikes, look-alike domain, sub-domain, domain as prefix, unlisted, two @, empty local part, non-ASCII local part / domain) x directory {in listed group, in none, error}; " +
+		Rule: "full product on a proxy built like cmd/sso-proxy (validators exactly as proxy.New builds them): rule sets = every combination of {absent, listed value, lone *, * with another value} for addresses, domains and groups (63 policies) x 14 emails (exact, case-varied, prefix/suffix look-alikes, look-alike domain, sub-domain, domain as prefix, unlisted, two @, empty local part, non-ASCII local part / domain) x directory {in listed group, in none, error, only in groups whose names extend a listed name, only in groups whose names are prefixes of a listed name}; " +
 			"each case logs in through the real callback, sends a request while no check is due and one after the validity TTL; oracle = the documented any-of semantics and the same verdict at all three stages (emails whose reading the statement leaves open: consistency only); " +
 			"distinct_nontrivial = distinct (rule set, email class, directory, verdict triple) among cases admitted at login",
 		Assumptions:    []string{"a revalidation whose directory lookup fails refuses regardless of the rules (C04), so that stage is not compared when the directory errors"},
